@@ -80,6 +80,8 @@ package gorm
 //@   ensures context: result.Statement.Context == db.Statement.Context [C18]
 //@   ensures config: result.Config == db.Config && result.Error == db.Error [C19,C05]
 //@   ensures skiphooks: result.Statement.SkipHooks == db.Statement.SkipHooks [C13]
+//@   ensures new-statement-is-scoped-unless-asked-to-propagate: db.clone == 1 && !db.Config.PropagateUnscoped ==> !result.Statement.Unscoped [C08]
+//@   ensures new-statement-propagates-unscoped-on-request: db.clone == 1 && db.Config.PropagateUnscoped ==> result.Statement.Unscoped == db.Statement.Unscoped [C08]
 
 //@ func NewPreparedStmtDB
 //@   tags C06
@@ -532,11 +534,11 @@ package gorm
 //@   do opened = opened + ite(isnil(result1), 1, 0)
 
 //@ func (*DB).Begin
-//@   tags C04
+//@   tags C04 C05
 //@   assumes handle-has-a-context: db.Statement != nil && db.Statement.Context != nil
 //@   modifies *db.cacheStore, ghost opened
 //@   ensures at-most-one-driver-begin: opened <= old(opened) + 1 && opened >= old(opened)
-//@   ensures no-transaction-without-success: result.Error != nil ==> opened == old(opened)
+//@   ensures no-transaction-without-success: result.Error != nil ==> opened == old(opened) [C04,C05]
 //@   ensures failure-is-reported: opened == old(opened) ==> result.Error != nil
 //@   ensures context-kept: result.Statement.Context == db.Statement.Context [C18]
 //@ iface TxBeginner.BeginTx(recv, ctx, opts)
@@ -744,11 +746,27 @@ package gorm
 //@ # builds afresh); a dry run keeps them for the caller to read. Clause order borrowed from the processor is
 //@ # returned.
 //@ func (*processor).Execute
-//@   tags C06 C19
+//@   tags C06 C19 C05
+//@   assumes handle-well-formed: db.clone > 0 || (db.Statement != nil && db.Statement.DB == db)
 //@   loop 1 invariant without-scopes-the-handle-stays: len(old(db.Statement.scopes)) == 0 ==> db == old(db) && len(db.Statement.scopes) == 0
-//@   ensures same-handle-without-scopes: len(old(db.Statement.scopes)) == 0 ==> result == db
+//@   loop 1 invariant handle-stays-well-formed: db.clone > 0 || (db.Statement != nil && db.Statement.DB == db)
+//@   ensures same-handle-without-scopes: len(old(db.Statement.scopes)) == 0 && db.clone <= 0 ==> result == db
 //@   ensures real-run-clears-the-bound-values: !result.Statement.DB.Config.DryRun ==> result.Statement.Vars == nil [C06]
 //@   ensures real-run-clears-the-built-text: !result.Statement.DB.Config.DryRun ==> textCleared == 1 [C06]
+//@ # The callbacks of an operation record what they did in the statement they are given (the implicit transaction they
+//@ # started, settings): they must all be given one instance (clone == 0) that owns its statement. A scope may return a
+//@ # handle made with Session/WithContext (clone > 0): every InstanceSet/Set on it would write a throw-away clone, the
+//@ # started transaction would never be committed and the write reported as successful would be lost (finding F17).
+//@ site scope-results-are-handles
+//@   match call gorm.(*DB).executeScopes
+//@   in gorm.(*processor).Execute
+//@   min-sites 1
+//@   assume-after scopes-return-well-formed-handles: result.clone > 0 || (result.Statement != nil && result.Statement.DB == result)
+//@ site callbacks-run-on-one-instance
+//@   match calldyn elem
+//@   in gorm.(*processor).Execute
+//@   min-sites 1
+//@   assert an-instance-that-owns-its-statement: arg0.clone <= 0 && arg0.Statement != nil && arg0.Statement.DB == arg0 [C05,C06]
 //@ ghost textCleared
 //@ event call strings.(*Builder).Reset
 //@   in gorm.(*processor).Execute
@@ -879,7 +897,7 @@ package gorm
 //@   in gorm.(*DB).Save
 //@   do zeroKeyPartSeen = ite(result1, 1, zeroKeyPartSeen)
 //@ func (*DB).Save
-//@   tags C16
+//@   tags C16 C10
 //@   assumes handle-well-formed: db.clone > 0 || (db.Statement != nil && db.Statement.DB == db)
 //@   loop "range tx.Statement.Schema.PrimaryFields" entry-do keyCheckEntered = 1
 //@   loop "range tx.Statement.Schema.PrimaryFields" entry-do zeroKeyPartSeen = 0
@@ -890,12 +908,12 @@ package gorm
 //@   in gorm.(*DB).Save
 //@   min-sites 1
 //@   entry keyCheckEntered == 0 && allKeyPartsSet == 0
-//@   assert every-key-part-was-checked: keyCheckEntered == 1 ==> allKeyPartsSet == 1 [C16]
+//@   assert every-key-part-was-checked: keyCheckEntered == 1 ==> allKeyPartsSet == 1 [C16,C10]
 //@ site save-reads-the-key-from-the-value
 //@   match calldyn Field.ValueOf
 //@   in gorm.(*DB).Save
 //@   min-sites 1
-//@   assert key-part-of-the-saved-value: arg1 == reflectValue [C16]
+//@   assert key-part-of-the-saved-value: arg1 == reflectValue [C16,C10]
 
 //@ # ---------- C10: Save writes all fields unless the chain itself selected some ----------
 //@ # Omit only narrows "all fields"; it is not a selection. Without "*" the struct update would skip zero values.
@@ -1014,6 +1032,49 @@ package gorm
 //@   in gorm.(*Association).buildCondition
 //@   min-sites 1
 //@   assert values-of-the-rendered-text: arg0 == joinStmt.Vars [C01]
+
+//@ # ---------- C03: the value kinds AddVar binds as a whole keep their own case ----------
+//@ # A []byte is bound as one value whatever its length: in the generic slice branch an empty one would be rendered as
+//@ # the text (NULL) and a NOT NULL blob column could not store an empty value.
+//@ site byte-slices-are-bound-as-one-value
+//@   match typeassert []byte
+//@   in gorm.(*Statement).AddVar
+//@   min-sites 1
+//@   assert own-case: true [C03,C01]
+
+//@ # ---------- C04: a dedicated connection goes back to the pool however the block ends ----------
+//@ ghost connOpened connClosed
+//@ event call database/sql.(*DB).Conn
+//@   in gorm.(*DB).Connection
+//@   do connOpened = connOpened + ite(tagof(result1) == 0, 1, 0)
+//@ event call database/sql.(*Conn).Close
+//@   in gorm.(*DB).Connection
+//@   do connClosed = connClosed + 1
+//@ func (*DB).Connection
+//@   tags C04
+//@   may-panic fc
+//@   ensures connection-released: connClosed - old(connClosed) == connOpened - old(connOpened)
+//@   ensures-on-panic connection-released: connClosed - old(connClosed) == connOpened - old(connOpened)
+//@ # Save points of nested blocks are told apart by a random id: a name derived from the handle or the block function
+//@ # collides when a block opens a descendant through the enclosing handle, and ROLLBACK TO then undoes too little.
+//@ site savepoint-names-are-random
+//@   match call hash/maphash.(*Hash).Sum64
+//@   in gorm.(*DB).Transaction
+//@   min-sites 1
+//@   assert drawn-for-this-block: true [C04]
+
+//@ # ---------- C16: Attrs / Assign given as a pointer to a struct are read through the pointer ----------
+//@ site attrs-struct-read-through-pointers
+//@   match call reflect.Indirect
+//@   in gorm.(*DB).assignInterfacesToValue
+//@   min-sites 1
+//@   assert value-indirected: true [C16]
+//@ # FirstOrCreate on a miss applies Assign whether or not Attrs were given too.
+//@ site first-or-create-assigns-with-or-without-attrs
+//@   match call gorm.(*DB).assignInterfacesToValue
+//@   in gorm.(*DB).FirstOrCreate
+//@   min-sites 3
+//@   cover assign-applied-next-to-attrs: arg1 != db.Statement.assigns || len(db.Statement.attrs) > 0 [C16]
 
 //@ # ---------- C18/C04: a nested block is set up and undone on the caller's handle ----------
 //@ # SAVEPOINT and ROLLBACK TO SAVEPOINT of a nested Transaction carry the same context (and run on the same
